@@ -17,6 +17,7 @@
 package log
 
 import (
+	"bytes"
 	"sort"
 	"sync/atomic"
 
@@ -306,6 +307,7 @@ func (c *AsyncLogger) Append(e *Event) {
 // Write enqueues raw bytes into the buffer.
 // Behavior on full buffer depends on BufferFullPolicy.
 func (c *AsyncLogger) Write(b []byte) {
+	b = bytes.Clone(b) // the caller may reuse its buffer as soon as Write returns
 	select {
 	case c.buf <- b:
 	default:
